@@ -48,7 +48,14 @@ CHECKS.append(chk("C10", "exploration",
     "Same histories; after every successful vacuum the entry-level dump of the vacuumed tree must hold no delete marker older than the cutoff and no purge tombstone (size = entries); for the year-2100 cutoff no ancestor version object and no node object that only deleted versions referred to may be left; repeating the same vacuum must leave the bucket byte-identical and the rows unchanged; rows deleted at/after the cutoff keep winning over older late-arriving writes, as the reference model (which forgets purged markers) predicts. Version-side cutoffs other than 'all/none' are not reachable at SQL level because version creation time is the wall clock (see DESIGN.md).",
     "stateful property-based testing (rapid): post-conditions over entry-level dump and bucket listing + idempotence (metamorphic) + model"))
 
-for pid in ["C03","C04","C05","C11","C12","C13","C14","C15","C17","C18","C19","C20"]:
+CHECKS.append(chk("C11", "exploration",
+    "Multi-writer histories with (s3db_version, rows) recorded after every step; at generated points every recorded version is re-opened restricted to exactly those names (Go-level read-only open and s3db_changes(from='[]',to=V)) and must give the recorded rows whatever happened since; s3db_version must not move across steps that add no effective operation (no row matched, refused statement, quiescent refresh) and must move whenever the visible rows change; read-only opens must report exactly the names under root/current/, read-write opens one name whose recorded parents (harness decoder) are that frontier.",
+    "stateful property-based testing (rapid): history invariant over recorded (version, rows) pairs"))
+CHECKS.append(chk("C12", "fault_enumeration",
+    "Generated ordered pairs (A,B) of recorded versions (incl. A after B, A=B, other writers' versions, multi-node trees sharing subtrees): s3db_changes(from=A,to=B) must return only rows of B, each once, and every row of B that is absent from or different in A, and must not fail; in fault mode the query is repeated with the p-th storage request of the diff failing for every p (exhaustive per pair): the query must fail or still satisfy both directions.",
+    "property-based testing (rapid) with a two-sided set oracle + exhaustive single-fault enumeration per generated pair"))
+
+for pid in ["C03","C04","C05","C13","C14","C15","C17","C18","C19","C20"]:
     NOT_YET[pid] = "check under construction in this session (designed in DESIGN.md section 5); not claimed until its quick tier runs clean on the unchanged tree"
 
 MANIFEST = {
